@@ -30,3 +30,16 @@ package bridgesync
 //@   props C19
 //@   requires 0 <= g && (g < 18446744073709551616 || (g >= 18446744073709551616 && g < 18446744073709551616 + 4294967296))
 //@   ensures[regenerate] ite(g >= 18446744073709551616, 18446744073709551616, ((g / 4294967296) % 4294967296) * 4294967296) + g % 4294967296 == g
+
+// ---- fail-stop (C14): every exported entry point of the syncer, enumerated from the method set on each run.
+// While the processor is halted a data query returns the explicit inconsistency error, no data, and reaches
+// no store / tree / contract call (only the halted test itself and logging may run).
+
+//@ schema exported-methods *BridgeSync
+//@   props C14
+//@   except Start OriginNetwork BlockFinality GetLastReorgEvent
+//@   requires self != nil && self.processor != nil && self.processor.halted && self.processor.log != nil
+//@   nocalls
+//@   allowcalls isHalted
+//@   ensureserror sync.ErrInconsistentState
+//@   ensureszero
